@@ -202,6 +202,8 @@ def run(ctx):
 
 SYNC = 'src/myth_sync_func.h'
 MUTANTS = [
+    {'name': 'wake chain links behind a NULL tail (sweep M0634)', 'expect': 'C07.5',
+     'edits': [(SYNC, "    to_wake->env = env;\n    to_wake->next = 0;\n    if (to_wake_tail) {\n      to_wake_tail->next = to_wake;", "    to_wake->env = env;\n    to_wake->next = 0;\n    if (!(to_wake_tail)) {\n      to_wake_tail->next = to_wake;")]},
     {'name': 'wake-many releases one element more than it collected (sweep M0633)', 'expect': 'C07.5',
      'edits': [(SYNC, "  myth_thread_t to_wake = to_wake_head;\n  for (i = 0; i < n; i++) {\n    assert(to_wake);\n    myth_thread_t next = to_wake->next;\n    myth_queue_push(&env->runnable_q, to_wake);",
                 "  myth_thread_t to_wake = to_wake_head;\n  for (i = 0; i <= n; i++) {\n    assert(to_wake);\n    myth_thread_t next = to_wake->next;\n    myth_queue_push(&env->runnable_q, to_wake);")]},
